@@ -1,7 +1,7 @@
 SPECIFICATION Spec
-CONSTANT Bug = "none"
-CONSTANT MaxDefects = 1
+CONSTANT Bug = "call_before_rules"
+CONSTANT MaxDefects = 2
 CONSTANT MaxValidations = 1
 CONSTANT MaxPending = 1
-INVARIANT NeverOk
+INVARIANT ProviderLast
 CHECK_DEADLOCK FALSE
